@@ -513,11 +513,11 @@ def gen_links():
 
     # attachments: <link rel=attachment>, <a rel=attachment>
     css = page_css(220, 150, 10) + BASE
-    body = [para(words("w", 10)), '<p><a rel=attachment href="att1.txt">w011</a> w012 <a rel=attachment href="missing.bin">w013</a></p>', para(words("w", 30, 14))]
+    body = [para(words("w", 10)), '<p><a rel=attachment href="att1.txt">w011</a> w012 <a rel=attachment href="missing.bin">w013</a> <a rel=attachment href="att1.txt">w012b</a></p>', para(words("w", 30, 14))]
     head = '<title>Att</title><link rel=attachment href="att2.txt" title="second">'
     scenario("link-03", "link", doc(css, "\n".join(body), head),
              files={"att1.txt": ("attachment one\n", dict(mime="text/plain", kind="attachment")), "att2.txt": ("attachment two\n", dict(mime="text/plain", kind="attachment"))},
-             expect=dict(flows={"main": words("w", 43)}, margin=True, page_w=220, page_h=150, conserve=True, meta={"Title": "Att"}, line_height=12,
+             expect=dict(flows={"main": words("w", 43)}, margin=True, page_w=220, page_h=150, meta={"Title": "Att"}, line_height=12,
                          sentinels=words("w", 43)))
 
     # many anchors per page (>= 2 on every page), target-counter links
@@ -1201,7 +1201,7 @@ def gen_rewrite():
     css = ("@page { size: 220px 150px; margin: 20px; marks: crop cross; bleed: 6px; @bottom-center { content: \"pg\" counter(page) \"of\" counter(pages); font-family: ahem; font-size: 8px; line-height: 8px } }\n" + BASE +
            ".ell { max-lines: 2; block-ellipsis: auto; width: 120px } .ell2 { max-lines: 1; block-ellipsis: \"~~\"; width: 100px } .j { text-align: justify; width: 150px } .j2 { text-align: justify; text-align-last: justify; width: 150px }\n")
     W = words("w", 60)
-    svgt = '<svg xmlns="http://www.w3.org/2000/svg" width="120" height="24"><text y="10" font-family="ahem" font-size="6">ta01<tspan>ta02</tspan><tspan dx="2">ta03</tspan></text><text y="20" font-family="ahem" font-size="6" dx="1 2 3">tb01</text></svg>'
+    svgt = '<svg xmlns="http://www.w3.org/2000/svg" width="120" height="24"><text y="10" font-family="ahem" font-size="6">ta01<tspan>ta02</tspan><tspan dx="2">ta03</tspan></text><text y="20" font-family="ahem" font-size="6" dx="1 2 3">tb01</text><text y="23" font-size="3">tc01<tspan font-size="2">tc02</tspan></text></svg>'
     body = (para(W[:8]) + '<p class=ell>%s</p><p class=ell2>%s</p>' % (" ".join(W[8:20]), " ".join(W[20:26])) + "<p>%s</p>" % svgt + '<p class=j>%s</p><p class=j2>%s</p><p class=j>%s</p>' % (" ".join(W[26:36]), " ".join(W[36:44]), " ".join(W[26:36]).replace("w0", "v0")) + para(W[44:]))
     scenario("rew-01", "rew", doc(css, body, "<title>Rewrite</title>"), expect=dict(page_w=232, page_h=162, meta={"Title": "Rewrite"}, line_height=12, group="rew"))
 
